@@ -94,8 +94,9 @@ def covRes (n m : Nat) (A : Nat → Nat → α) (s : Nat → α) (fac : α) (C :
 def modelExpr (model : FitModel) (m : Nat) : Expr α :=
   Gen.fitRule model (Expr.var m) ((List.range m).map Expr.var)
 
-/-- variables `k < m` are the parameters, everything else is `x` -/
-def envOf (m : Nat) (p : Nat → α) (x : α) : Nat → α := fun k => if k < m then p k else x
+/-- variables `k < m` are the parameters, variable `m` is `x` (nothing else occurs) -/
+def envOf (m : Nat) (p : Nat → α) (x : α) : Nat → α :=
+  fun k => if k < m then p k else if k = m then x else Num.ofNat 0
 
 /-- `f(x; p)` -/
 def fval (e : Expr α) (m : Nat) (p : Nat → α) (x : α) : α := Expr.eval (envOf m p x) e
